@@ -40,9 +40,9 @@ func c03Fixture() *c03Fix {
 
 func c03Specs(tier string) []*h.SeqSpec {
 	fx := c03Fixture()
-	tags := []string{"a", "B1"}
+	tags := []string{"a", "b", "B1"}
 	if tier == "thorough" {
-		tags = []string{"a", "b", "B1"}
+		tags = []string{"a", "b", "B1", "a.b-1"}
 	}
 	const repo = "r"
 	var specs []*h.SeqSpec
@@ -325,7 +325,7 @@ func init() {
 		Level: "model_checking",
 		Rule: "breadth-first search over all histories of tag pushes (2 manifests x tags), pushes by digest, tag deletes and digest deletes on the real handler (memory and directory store), " +
 			"to closure of the canonical state set; in every distinct state the tag map, the listing and the full n x last matrix are compared with a map model; non-trivial = state holding at least one manifest",
-		Assume: []string{"tag universe {a,B1} (quick) / {a,b,B1} (thorough); two manifests", "responses observed through Server.ServeHTTP with an httptest recorder"},
+		Assume: []string{"tag universe {a,b,B1} (quick) / {a,b,B1,a.b-1} (thorough); two manifests", "responses observed through Server.ServeHTTP with an httptest recorder"},
 		Specs:  c03Specs,
 		Budget: func(tier string) time.Duration {
 			if tier == "thorough" {
